@@ -145,10 +145,13 @@ def run(ctx):
             ctx.spec_fail('biselect|partition', 'biselect does not partition the input', {'table': repr(T), 'field': f, 'missing': repr(missing)})
         # search / searchcomplement partition
         try:
-            s1 = list(etl.search(T, f, 'a'))[1:] if all(len(r) > hdr.index(f) for r in T[1:]) else None
+            s1 = list(etl.search(T, f, 'a'))[1:]
             if s1 is not None:
                 s2 = list(etl.searchcomplement(T, f, 'a'))[1:]
-                ok = Counter(s1) + Counter(s2) == Counter(rows) and all('a' in str(r[hdr.index(f)]) for r in s1) and all('a' not in str(r[hdr.index(f)]) for r in s2)
+                fi_ = hdr.index(f)
+                # a row too short to have the field does not match: it belongs to the complement
+                ok = Counter(s1) + Counter(s2) == Counter(rows) and all(fi_ < len(r) and 'a' in str(r[fi_]) for r in s1) and \
+                    all(not (fi_ < len(r) and 'a' in str(r[fi_])) for r in s2)
                 ctx.case(('search', repr(T), f) if len(T) > 2 else None)
                 ctx.count('op:search')
                 if not ok:
@@ -156,7 +159,7 @@ def run(ctx):
         except Exception as e:   # noqa
             ctx.spec_fail('search|raises', 'search raised %r' % e, {'table': repr(T), 'field': f})
         # search over several fields / the whole row: a row matches when ANY of the cells matches
-        if all(len(r) == len(hdr) for r in T[1:]):
+        if True:
             for fields in ([None] + ([tuple(hdr[:2]), tuple(reversed(hdr))] if len(hdr) >= 2 else [])):
                 try:
                     if fields is None:
@@ -165,7 +168,7 @@ def run(ctx):
                     else:
                         s1, s2 = list(etl.search(T, fields, 'a'))[1:], list(etl.searchcomplement(T, fields, 'a'))[1:]
                         idxs = [hdr.index(x) for x in fields]
-                    hit = lambda r: any('a' in str(r[i]) for i in idxs)
+                    hit = (lambda r: any('a' in str(c) for c in r)) if fields is None else (lambda r: any('a' in str(r[i]) for i in idxs if i < len(r)))
                     ok = s1 == [r for r in rows if hit(r)] and s2 == [r for r in rows if not hit(r)]
                     ctx.case(('search-multi', repr(T), repr(fields)) if len(T) > 2 else None)
                     ctx.count('op:search-multi')
